@@ -176,17 +176,20 @@ CHECKS = {
     ),
     'C12': dict(
         ref='5.12',
-        text='Theorems in coq/Properties/C12.v (partial): for every parser state with a current field and every following '
-             'continuation line, a blank-line marker and a truly empty or whitespace-only line lead to the same next state - '
-             'appended to the current field, then the continuation, no paragraph break - differing only in the recorded text of '
-             'that line (marker text vs empty); the continuation above protects the line from trailing-blank trimming; both '
-             'texts decode to an empty line in formatted fields. NOT proved: that the remainder of the parse and the copyright '
-             'object then differ in nothing else; this is decided by co-execution of the complete models with deb822.py and '
-             'copyright.py on generated DEP-5 and control documents with every admissible subset of their markers blanked (all '
-             'subsets for <=6 markers) and by the executable statement (same groups/numbers, same types, field names, words; '
-             'identical decoded texts for DEP-5 documents).',
+        text='Theorems in coq/Properties/C12.v (partial): for every document of the deb822 grammar extended with blank (empty '
+             'or whitespace-only) lines inside a field that are followed by a continuation line, the line-tracking parser '
+             'returns exactly the paragraphs and fields, the blank line recorded as an empty line of its field (no paragraph '
+             'break); for two such documents that differ only in that some " ." marker lines of the first are blank lines in '
+             'the second, both parse into the same paragraphs and fields with the same names and line numbers, the texts '
+             'differing only at the replaced lines (" ." vs the empty text), hence the same words in each field; the '
+             'paragraphs get the same type; for paragraphs without repeated field names the typed fields and the extra data of '
+             'the copyright object have the same keys and the same words. Also the look-ahead rule for every parser state, '
+             'protection from trailing-blank trimming, and equal decoding in formatted fields. NOT proved: paragraphs with '
+             'repeated names and the recovery rewrites of the copyright object; decided by co-execution of the complete models '
+             'with deb822.py and copyright.py on generated DEP-5 and control documents with every admissible subset of their '
+             'markers blanked (all subsets for <=6 markers) and by the executable statement.',
         note=TRUST,
-        technique='Rocq proof of the look-ahead rule (partial) + differential co-execution and statement checking against the Python code',
+        technique='Rocq proof (induction over the extended document grammar; partial at object level) + differential co-execution and statement checking against the Python code',
     ),
     'C13': dict(
         ref='5.13',
